@@ -86,6 +86,64 @@ def step (st : Static) (g : GState) : Op → GState
 
 def runOps (st : Static) (ops : List Op) : GState := ops.foldl (step st) GState.init
 
+/-! ### A scan during which modules vanish
+
+Between the snapshot `tuple(sys.modules)` and the visit of a name, that module can be removed (by a glue function of
+an earlier module, or by another thread).  Since the repair of finding F16 such a name is *skipped* — neither pop
+happens — and the length cache is left alone so that the next extraction scans again. -/
+
+/-- One iteration for a name from the snapshot: skipped when the module is gone. -/
+def visitR (st : Static) (g : GState) (m : Mod) : GState :=
+  if g.present.contains m then visit st g m else g
+
+/-- `add_glue_as_needed()` where the modules in `gone` are removed right after the snapshot was taken. -/
+def addGlueR (st : Static) (g : GState) (gone : List Mod) : GState :=
+  if g.present.length == g.cache then
+    -- fast path: no scan; the modules vanish all the same
+    { g with present := g.present.filter (fun m => !gone.contains m), log := g.log ++ [.returned] }
+  else
+    let names := g.present
+    let g0 := { g with present := g.present.filter (fun m => !gone.contains m) }
+    let g' := names.foldl (visitR st) g0
+    let complete := names.all (fun m => g0.present.contains m)
+    { g' with cache := if complete then names.length else g'.cache, log := g'.log ++ [.returned] }
+
+/-- What the code did before the repair: a vanished module still had its built-in glue popped and run
+(`module_fn` is None after the KeyError), and the cache was updated regardless. -/
+def visitOld (st : Static) (g : GState) (m : Mod) : GState :=
+  if g.present.contains m then visit st g m
+  else
+    let b := builtinFn st g m
+    { g with builtinPopped := if b then m :: g.builtinPopped else g.builtinPopped,
+             log := g.log ++ (if b then [.ranBuiltin m] ++ (if st.builtinRaises m then [.warn m] else []) else []) }
+
+def addGlueOld (st : Static) (g : GState) (gone : List Mod) : GState :=
+  if g.present.length == g.cache then
+    { g with present := g.present.filter (fun m => !gone.contains m), log := g.log ++ [.returned] }
+  else
+    let names := g.present
+    let g0 := { g with present := g.present.filter (fun m => !gone.contains m) }
+    let g' := names.foldl (visitOld st) g0
+    { g' with cache := names.length, log := g'.log ++ [.returned] }
+
+inductive OpR
+  | insert (m : Mod)
+  | remove (m : Mod)
+  | extract (gone : List Mod)        -- an extraction during whose scan these modules vanish
+  deriving DecidableEq, Repr
+
+def stepR (st : Static) (g : GState) : OpR → GState
+  | .insert m => step st g (.insert m)
+  | .remove m => step st g (.remove m)
+  | .extract gone => addGlueR st g gone
+
+def runOpsR (st : Static) (ops : List OpR) : GState := ops.foldl (stepR st) GState.init
+
+def stepOld (st : Static) (g : GState) : OpR → GState
+  | .insert m => step st g (.insert m)
+  | .remove m => step st g (.remove m)
+  | .extract gone => addGlueOld st g gone
+
 /-! ### Concurrency: the installation routine as atomic steps of several threads
 
 Each pop is a single dict operation (atomic under the GIL); a glue call is not.  The lock is modelled
